@@ -13,6 +13,7 @@ def answer (line : String) : String :=
     | "ld" => ldLine toks
     | "lds" => ldsLine toks
     | "fab" => fabLine toks
+    | "ao" => aoLine toks
     | _ => "bad-family"
   | [] => "bad-line"
 
